@@ -1,2 +1,69 @@
-(* C08 — property theorems (under construction; see Batch/*_proofs.v). *)
-From QV Require Import Batch.Monitor.
+(* C08 — every call completes under every schedule (provided the wrapped primitive returns).
+   Level: PARTIAL.  Proved for the repaired variant (HEAD: timed retry wait + repaired failure path, any linger), for
+   every reachable state of any number of threads/calls and every schedule:
+     * C08_no_stuck_state      no deadlock: while a call is unfinished some thread can take a step;
+     * C08_waiters_have_wakers no lost wake-up: every thread blocked in an untimed wait or blocking acquire waits for a
+                               specific other live thread (member -> a thread still to be counted / the executor, which
+                               has not left its re-notify loop; lock waiter -> the holder);
+     * C08_legacy_refuted      the untimed retry wait (before fix cf627d8) does deadlock: concrete two-thread schedule.
+     * C08_can_always_finish   no trap: from every reachable state some finite schedule completes every submitted call
+                               (explicit drain policy + a natural-number measure that decreases at every policy step:
+                               Batch/DrainMu_proofs.v, Batch/Drain_proofs.v); the wrapper never reaches a state from which
+                               completion is impossible and never stops accepting batches.
+   NOT proved (stated here in full, not claimed; this is why the level is partial):
+     * C08_fair_termination, with
+         trace v st0 sigma n      := run v st0 (map sigma (seq 0 n))            (sigma : nat -> tid * nat, an infinite schedule)
+         enabled_at v st t        := exists c st', step v st t c = Some st'
+         weakly_fair v st0 sigma  := forall t n, (forall m st, n <= m -> trace v st0 sigma m = Some st -> enabled_at v st t)
+                                                 -> exists m, n <= m /\ fst (sigma m) = t
+       the statement
+         forall v calls sigma, ext_wait_timed v = true -> failure_path_repaired v = true ->
+           (forall n, trace v (init_state calls) sigma n <> None) -> weakly_fair v (init_state calls) sigma ->
+           exists n st, trace v (init_state calls) sigma n = Some st /\ all_done st = true
+       (every weakly fair infinite schedule completes every call).  The theorems above exclude deadlock, lost wake-ups
+       and traps; they do not exclude starvation by an unfair lock under an unbounded stream of competing callers, nor an
+       adversarial scheduler that always fires the 0.5 s timeouts early.
+   Property theorems only. *)
+From QV Require Import Common.Base Batch.Monitor Batch.ListX Batch.Inv Batch.Route Batch.Live Batch.Live_proofs Batch.Drain_proofs.
+
+Theorem C08_legacy_refuted :
+  exists st, run legacy_wait (init_state c08_calls) c08_sched = Some st
+    /\ (forall t c, step legacy_wait st t c = None)
+    /\ (exists th0 th1, threads st = [th0; th1] /\ t_pc th0 = Done /\ t_pc th1 = F4 /\ wqX (sh st) = [1]
+        /\ t_outs th0 = [([1], RetOk 0 0)] /\ t_outs th1 = []).
+Proof. exact c08_legacy_witness. Qed.
+Print Assumptions C08_legacy_refuted.
+
+(* the same schedule on HEAD's variant: the waiter's timeout can fire, the run goes on *)
+Theorem C08_witness_repaired_goes_on :
+  exists st, run (head false) (init_state c08_calls) c08_sched = Some st /\ exists st', step (head false) st 1 1 = Some st'.
+Proof. exact c08_witness_repaired_goes_on. Qed.
+Print Assumptions C08_witness_repaired_goes_on.
+
+Theorem C08_no_stuck_state : forall v st,
+  ext_wait_timed v = true -> failure_path_repaired v = true -> reachable v st ->
+  some_unfinished st -> can_step v st.
+Proof. exact no_stuck. Qed.
+Print Assumptions C08_no_stuck_state.
+
+Theorem C08_waiters_have_wakers : forall v st, failure_path_repaired v = true -> reachable v st ->
+  (forall t th, nth_error (threads st) t = Some th -> t_pc th = N4 -> In t (wqI (sh st)) -> waker_of_member st t)
+  /\ (forall t th u, nth_error (threads st) t = Some th -> (t_pc th = E0 \/ t_pc th = X1) -> lkE (sh st) = Some u ->
+        u <> t /\ exists thu, nth_error (threads st) u = Some thu /\ holdsE thu = true)
+  /\ (forall t th u, nth_error (threads st) t = Some th -> (t_pc th = G0 \/ t_pc th = H0 \/ t_pc th = C0) -> lkV (sh st) = Some u ->
+        u <> t /\ exists thu, nth_error (threads st) u = Some thu /\ holdsV thu = true).
+Proof. exact waiters_have_wakers. Qed.
+Print Assumptions C08_waiters_have_wakers.
+
+Theorem C08_can_always_finish : forall v st,
+  ext_wait_timed v = true -> failure_path_repaired v = true -> reachable v st ->
+  exists sched st', run v st sched = Some st' /\ all_done st' = true.
+Proof. exact can_always_finish. Qed.
+Print Assumptions C08_can_always_finish.
+
+Example C08_nonvacuous :
+  exists st, run (head true) (init_state demo_calls) demo_sched = Some st /\ all_done st = true
+    /\ map t_outs (threads st) = [[([1;2], RetOk 0 0)]; [([3], RetOk 0 2)]; [([4;5;6], RetOk 1 0)]]
+    /\ log (sh st) = [([1;2;3], true); ([4;5;6], true)].
+Proof. exact demo_run. Qed.
+Print Assumptions C08_nonvacuous.
